@@ -221,8 +221,10 @@ LEVEL_NOTE = ("Worker side: partial. Proved: the proxy is invoked whether or not
               "both reject and the proxy is atomic (checked on the real HTTP/HTTPS listeners: update_config used to apply the "
               "simple fields before the template / HSTS / ALPN checks could fail, fixed); kept visible as worker_view_drift + "
               "open finding: a patch the ConfigState accepts and the proxy refuses (answer template that does not compile) is "
-              "answered with a failure while the worker's view and the main state keep it. Other proxy actions (frontends, "
-              "backends, certificates on the live proxies) are not tied. Inside the model: all 28 state-changing verbs of dispatch (clusters, health checks, 4 listener kinds incl. "
+              "answered with a failure while the worker's view and the main state keep it. Frontends on the live HTTP / HTTPS "
+              "proxies: routes and tags of a hostname modelled (C07/Tags.v: a refused add / remove leaves no trace, tags exactly "
+              "while a route is left) and checked on the real proxy objects by random histories (c07w front_seq); backends and "
+              "certificates on the live proxies are not tied. Inside the model: all 28 state-changing verbs of dispatch (clusters, health checks, 4 listener kinds incl. "
               "activate/deactivate/remove and the 4 patch verbs, http/https/tcp/udp frontends, backends, add/remove/replace "
               "certificate), pass-through verbs, undispatchable and empty requests. Outside: request_counts; the worker's "
               "live proxies (lib/src/server.rs applies config_state.dispatch, ignores its result, then notifies the proxy: "
